@@ -838,6 +838,9 @@ class Interp:
                 return getattr(recv, meth)(*[set(a) for a in args])
             if recv is type and meth in ("mro", "__subclasses__") and len(args) == 1 and isinstance(args[0], type):
                 return list(getattr(type, meth)(args[0]))
+            if recv is ast and meth in ("iter_fields", "iter_child_nodes", "copy_location", "fix_missing_locations", "walk", "dump", "unparse") and args and all(isinstance(a, ast.AST) for a in args):
+                r = getattr(ast, meth)(*args)
+                return r if isinstance(r, (ast.AST, str)) else list(r)
             if recv is ast and meth == "parse" and args and isinstance(args[0], str):
                 try:
                     return ast.parse(*args, **{k.arg: self.ev(k.value) for k in e.keywords if k.arg})
@@ -893,6 +896,20 @@ class Interp:
             if isinstance(recv, (Opaque, Sym)):
                 return Opaque(meth)
             raise Unsupported(e, "(method on a concrete value)")
+        if not isinstance(f, (ast.Name, ast.Attribute)):
+            callee = self.ev(f)
+            if isinstance(callee, type) and issubclass(callee, ast.AST):
+                # type(node)(**fields): building a syntax node is a native operation
+                kwargs: Dict[str, Any] = {}
+                for k in e.keywords:
+                    if k.arg is None:
+                        d = self.ev(k.value)
+                        if not isinstance(d, dict):
+                            raise Unsupported(e, "(** of a non-dict)")
+                        kwargs.update(d)
+                    else:
+                        kwargs[k.arg] = self.ev(k.value)
+                return callee(*self.elts(e.args), **kwargs)
         raise Unsupported(e, "(call)")
 
 
